@@ -836,6 +836,94 @@ fn record(args: &Args) {
             }
         }
     }
+    // --- deterministic boundary payloads: the full product, never subsampled
+    for f in flavours {
+        let p = [0x5bu8, 0x5c, 0x4d][flavours.iter().position(|x| *x == f).unwrap()];
+        // every byte value as root value kind and as array element kind
+        for k in 0..=255u8 {
+            by_flavour!(f, bytes_event, &mut r, "boundary:root-kind", &[p, k, 1], 64);
+            by_flavour!(f, bytes_event, &mut r, "boundary:element-kind", &[p, 32, k, 0], 64);
+        }
+        // every size encoding class on every size-bearing header, with exactly n / n-1 / n+1 elements behind it
+        let sizes: [(&[u8], usize); 14] = [
+            (&[0], 0), (&[0x80, 0], 0), (&[1], 1), (&[0x81, 0], 1), (&[0x7f], 127), (&[0x80, 1], 128), (&[0x80, 0x81, 0], 128),
+            (&[0xff, 0x7f], 16383), (&[0x80, 0x80, 1], 16384), (&[0xff, 0xff, 0x7f], 2097151), (&[0x80, 0x80, 0x80, 1], 2097152),
+            (&[0xff, 0xff, 0xff, 0x7f], 268435455), (&[0x80, 0x80, 0x80, 0x80, 1], 0), (&[0x80], 0),
+        ];
+        let mut headers: Vec<(Vec<u8>, Vec<u8>)> = vec![
+            (vec![p, 12], vec![b'a']), (vec![p, 32, 7], vec![7]), (vec![p, 32, 1], vec![1]), (vec![p, 32, 33], vec![0]),
+            (vec![p, 33], vec![1, 1]), (vec![p, 34, 0], vec![7, 9]), (vec![p, 35, 7, 1], vec![7, 1]), (vec![p, 35, 12, 33], vec![1, b'k', 0]),
+        ];
+        if f == "scrypto" { headers.extend([(vec![p, 0xc0, 0], vec![b'a']), (vec![p, 0xc0, 2], vec![9])]); }
+        if f == "manifest" { headers.extend([(vec![p, 0x87, 0], vec![b'_']), (vec![p, 0x87, 2], vec![0])]); }
+        for (head, unit) in headers.iter() {
+            for (enc, n) in sizes.iter() {
+                let counts: Vec<usize> = if *n <= 128 { vec![*n, n.saturating_sub(1), n + 1] } else { vec![0, 3] };
+                for c in counts {
+                    if c * unit.len() + head.len() + enc.len() > 300 { continue; }
+                    let mut b = head.clone();
+                    b.extend_from_slice(enc);
+                    for _ in 0..c { b.extend_from_slice(unit); }
+                    by_flavour!(f, bytes_event, &mut r, "boundary:size", &b, 64);
+                }
+            }
+        }
+        // bool bodies, UTF-8 boundaries
+        for v in [0u8, 1, 2, 0x7f, 0x80, 0xff] { by_flavour!(f, bytes_event, &mut r, "boundary:bool", &[p, 1, v], 64); }
+        let utf8: [&[u8]; 14] = [&[0x7f], &[0x80], &[0xc2, 0x80], &[0xc1, 0xbf], &[0xc0, 0x80], &[0xdf, 0xbf], &[0xe0, 0xa0, 0x80], &[0xe0, 0x9f, 0xbf],
+            &[0xed, 0x9f, 0xbf], &[0xed, 0xa0, 0x80], &[0xef, 0xbf, 0xbf], &[0xf0, 0x90, 0x80, 0x80], &[0xf4, 0x8f, 0xbf, 0xbf], &[0xf4, 0x90, 0x80, 0x80]];
+        for u in utf8 {
+            let mut b = vec![p, 12, u.len() as u8];
+            b.extend_from_slice(u);
+            by_flavour!(f, bytes_event, &mut r, "boundary:utf8", &b, 64);
+            let mut t = b.clone();
+            t.pop();
+            t[2] -= 1;
+            by_flavour!(f, bytes_event, &mut r, "boundary:utf8-truncated", &t, 64);
+        }
+        // custom value bodies: fixed sizes -1 / exact / +1, discriminators, content limits
+        let fixed: Vec<(u8, usize)> = match f {
+            "scrypto" => vec![(0x80, 30), (0x90, 30), (0xa0, 24), (0xb0, 32)],
+            "manifest" => vec![(0x81, 4), (0x82, 4), (0x83, 1), (0x84, 32), (0x85, 24), (0x86, 32), (0x88, 4)],
+            _ => vec![],
+        };
+        for (k, n) in fixed {
+            for len in [n - 1, n, n + 1] {
+                for fillb in [0u8, 1, 0xff] {
+                    let mut b = vec![p, k];
+                    b.extend(std::iter::repeat(fillb).take(len));
+                    by_flavour!(f, bytes_event, &mut r, "boundary:custom-fixed", &b, 64);
+                }
+            }
+        }
+        let nf: Option<u8> = match f { "scrypto" => Some(0xc0), "manifest" => Some(0x87), _ => None };
+        if let Some(k) = nf {
+            for disc in 0..=5u8 {
+                for body in [0usize, 1, 7, 8, 9, 31, 32, 33, 64, 65, 66] {
+                    // as length-prefixed content (discriminators 0 and 2) and as raw content (1 and 3)
+                    let mut b = vec![p, k, disc];
+                    if disc == 0 || disc == 2 { b.push(body as u8); }
+                    b.extend(std::iter::repeat(b'a').take(body));
+                    by_flavour!(f, bytes_event, &mut r, "boundary:nf-id", &b, 64);
+                }
+            }
+            for ch in [b'_', b'0', b'9', b'A', b'Z', b'a', b'z', b'/', b':', b'@', b'[', b'`', b'{', b'-', b' ', 0u8, 0x7f, 0x80, 0xc3] {
+                by_flavour!(f, bytes_event, &mut r, "boundary:nf-char", &[p, k, 0, 1, ch], 64);
+            }
+        }
+        if f == "manifest" {
+            for first in 0..=255u8 {
+                let mut b = vec![p, 0x80, 0, first];
+                b.extend(std::iter::repeat(3u8).take(29));
+                by_flavour!(f, bytes_event, &mut r, "boundary:address-entity-byte", &b, 64);
+            }
+            for (disc, len) in [(0u8, 29usize), (0, 31), (1, 3), (1, 4), (1, 5), (2, 4), (255, 4)] {
+                let mut b = vec![p, 0x80, disc];
+                b.extend(std::iter::repeat(13u8).take(len));
+                by_flavour!(f, bytes_event, &mut r, "boundary:address-shape", &b, 64);
+            }
+        }
+    }
     // --- values whose custom content only the decoders validate (constructible in the manifest flavour only)
     let invalid: Vec<(&str, J)> = vec![
         ("static-address", json!({"t": "cust", "k": 128, "c": {"f": "static", "b": vec![0u8; 30]}})),
